@@ -7,7 +7,7 @@ its chunk range (`OpOK`).  Histories (`HOp`): steps of any number of threads at 
 granularity (any interleaving, any eviction choices, any deletion order) and close – damage –
 re-open events.  The CRC function is arbitrary.
 -/
-import XetProofs.CacheHit
+import XetProofs.CacheFiles
 
 namespace Xet.Cache
 
@@ -38,10 +38,6 @@ def HistOK (crc : Bytes → UInt32) (X : Ref) (fixed lenient : Bool) : World →
   | w, .act a :: rest => ActionOK X a ∧ ∀ w', step crc fixed w a = some w' → HistOK crc X fixed lenient w' rest
   | w, .reopen fs' cap order :: rest =>
     Detectable crc w.fs fs' ∧ ∀ w', reopen lenient w fs' cap order = some w' → HistOK crc X fixed lenient w' rest
-
-/-- a freshly created cache directory -/
-def World.fresh (cap : Nat) (nthreads : Nat) : World :=
-  ⟨CState.empty, [], cap, false, List.replicate nthreads .idle⟩
 
 theorem inv12_fresh (crc : Bytes → UInt32) (X : Ref) (cap n : Nat) : Inv12 crc X (World.fresh cap n) := by
   have hidle : ∀ pc ∈ (World.fresh cap n).threads, pc = PC.idle := by
@@ -175,5 +171,97 @@ def C12_hit_full : Prop :=
       w'.threads[tid]? = some (.done (.hit data offs)) →
       data = (sub (X k) r.start.toNat r.stop.toNat).flatten ∧
       offs = offsOf (sub (X k) r.start.toNat r.stop.toNat)
+
+/-! ### never a panic -/
+
+/-- **Parser totality.**  The file-name parser, the header parser and the per-file scan rule are
+    total functions into outcome types without a panic value (`Option Item`, `Option (List Nat)`,
+    `FileParse`): for *every* file name and *every* content they answer item / skip / remove.
+    The only panic outcomes of the model are in `parseKeyDir` + the prefix check of the directory
+    scan (the code before the F14 fix) and in `cmpLens` (F12, wider-range rename).  After the F14
+    fix (`lenient = true`) the directory scan has no panic outcome, whatever the directory contains: -/
+theorem C12_scan_total (fs : FS) (cap : Nat) (order : List Path) (out : ScanOut)
+    (h : scan true fs cap order = some out) : out.res = .ok := by
+  unfold scan at h
+  split at h
+  · cases h
+  · cases h; exact scanPrefixDirs_ok cap order _ _
+
+/-- the code before the F14 fix panics on a planted directory `ab/abAA` (3 decoded bytes) … -/
+theorem C12_prefix_F14_witness :
+    (scan false [([[97, 98]], .dir), ([[97, 98], [97, 98, 65, 65]], .dir)] 1000
+        [[[97, 98]], [[97, 98], [97, 98, 65, 65]]]).map (·.res) = some .panic := by
+  decide
+
+/-- … and the repaired scan skips it -/
+example :
+    (scan true [([[97, 98]], .dir), ([[97, 98], [97, 98, 65, 65]], .dir)] 1000
+        [[[97, 98]], [[97, 98], [97, 98, 65, 65]]]).map (fun o => (o.res, o.s.st.numItems)) = some (.ok, 0) := by
+  decide
+
+/-- a thread that executes a `get` never ends in a panic (in any reachable state: `Weak` holds in
+    all of them, see C13) -/
+theorem C12_get_no_panic (crc : Bytes → UInt32) (fixed : Bool) (w w' : World) (hw : Weak w.st)
+    (tid : Nat) (o : Oracle) (k : Key) (r : Range) (c : Cell)
+    (hpc : w.threads[tid]? = some (.matched (.get k r) c))
+    (hs : step crc fixed w (.go tid o) = some w') :
+    w'.threads[tid]? ≠ some (.done .panic) := by
+  have hlt : tid < w.threads.length := by
+    rcases Nat.lt_or_ge tid w.threads.length with hl | hl
+    · exact hl
+    · rw [List.getElem?_eq_none hl] at hpc; cases hpc
+  unfold step at hs
+  simp only [hpc, segment] at hs
+  cases hs
+  simp only [setThread, getMatchedSeg_threads]
+  rw [List.getElem?_set]
+  simp only [hlt, if_true]
+  intro e
+  exact getMatchedSeg_pc_ne_panic crc w _ c hw (Option.some.inj e)
+
+/-- **No panic, any operation.**  In a state that satisfies the C12 invariant and the C13
+    accounting invariant, no step of any thread (get or put, any oracle values) ends in a panic:
+    the thread that was not `done panic` before is not afterwards.  In particular
+    `validate_match` never indexes the stored header out of range, because a file that passed the
+    CRC check is the reference file of a covering range. -/
+theorem C12_no_panic_step (crc : Bytes → UInt32) (X : Ref) (hX : RefOK X) (fixed : Bool) (w w' : World)
+    (hi : Inv12 crc X w) (hw : Weak w.st) (a : Action) (hs : step crc fixed w a = some w') (j : Nat)
+    (hj : w'.threads[j]? = some (.done .panic)) : w.threads[j]? = some (.done .panic) :=
+  step_no_new_panic hi hX hw fixed a hs j hj
+
+/-- … hence no operation of any interleaving started on an empty cache directory panics
+    (consistent puts, arbitrary gets) -/
+theorem C12_no_panic (crc : Bytes → UInt32) (X : Ref) (hX : RefOK X) (fixed : Bool) :
+    ∀ (as : List Action) (w0 w : World), Inv12 crc X w0 → Weak w0.st → (∀ a ∈ as, ActionOK X a) →
+      (∀ j : Nat, w0.threads[j]? ≠ some (PC.done Res.panic)) →
+      run crc fixed w0 as = some w → ∀ j : Nat, w.threads[j]? ≠ some (PC.done Res.panic) := by
+  intro as
+  induction as with
+  | nil => intro w0 w _ _ _ h0 hr; simp [run] at hr; subst hr; exact h0
+  | cons a as ih =>
+    intro w0 w hi hw hok h0 hr
+    unfold run at hr
+    split at hr
+    · cases hr
+    · rename_i w1 hs
+      exact ih w1 w (step_inv12 hi fixed a (hok a (by simp)) hs) (step_pres crc fixed w0 w1 a hw hs).1
+        (fun a' ha' => hok a' (by simp [ha']))
+        (fun j hj => h0 j (step_no_new_panic hi hX hw fixed a hs j hj)) hr
+
+/-! ### Non-vacuity: a concrete history with a hit on a nested sub-range -/
+
+def exKey : Key := [7]
+def exRef : Ref := fun _ => [[1], [2, 3], [4, 5, 6]]
+
+example : OpOK exRef (.put exKey ⟨0, 3⟩ [0, 1, 3, 6] [1, 2, 3, 4, 5, 6]) := by
+  refine ⟨by decide, by decide, by decide, by decide⟩
+
+/-- put chunks `[0,3)`, then `get [1,3)` is a hit with the bytes of chunks 1 and 2 and offsets
+    rebased to 0 -/
+example :
+    ((runOp (fun _ => 0) true 10 (World.fresh 1000 1) (.put exKey ⟨0, 3⟩ [0, 1, 3, 6] [1, 2, 3, 4, 5, 6]) []).bind
+      fun o => (runOp (fun _ => 0) true 10 o.w (.get exKey ⟨1, 3⟩) []).map (·.res))
+      = some (.hit [2, 3, 4, 5, 6] [0, 2, 5]) := by
+  decide
 
 end Xet.Cache
